@@ -1361,6 +1361,11 @@ func generate(c *core.Ctx, cfg *config) {
 			cliFlags = "r" // gotree compare trees --rf
 		}
 		threads := []int{1, 2, 4, 16, n + 3}
+		if kind == "tbe" {
+			// thread counts that do not divide the number of reference branches, and counts above it (a fan-out that
+			// hands out the branches in blocks of len/cpu loses the last len%cpu ones)
+			threads = append(threads, 5, 7, 13, 32)
+		}
 		add := func(its []string) {
 			for _, th := range threads {
 				reqs = append(reqs, request{Kind: kind, Threads: th, Flags: flags, Ref: refN.Dump(), Items: its})
